@@ -109,6 +109,72 @@ def t_variants(acc, w, g, L, shard, nshard, stride=1, offset=0, budgets=BUDGETS)
                 check(acc, spec, L, tuple(budgets), blank, kw)
 
 
+def long_machines():
+    """Thin deep family (wave 5): machines whose halting runs take hundreds to thousands of steps and revisit the same
+    (state, head position) pairs with different tape contents."""
+    A, B, X, Y, BL = 0, 1, 2, 3, 4
+    QA, QR = 4, 5
+    # a^n b^n by crossing off (gamma a, b, X, Y, blank): s0 marks an a, s1 runs right to the first b, s2 runs back, s3 checks
+    cross = {(0, A): (1, X, 'R'), (0, Y): (3, Y, 'R'), (0, BL): (QA, BL, 'R'),
+             (1, A): (1, A, 'R'), (1, Y): (1, Y, 'R'), (1, B): (2, Y, 'L'),
+             (2, A): (2, A, 'L'), (2, Y): (2, Y, 'L'), (2, X): (0, X, 'R'),
+             (3, Y): (3, Y, 'R'), (3, BL): (QA, BL, 'R')}
+    g = 5
+    choice = tuple(cross.get((q, a)) for q in range(4) for a in range(g))
+    yield 'a^n b^n by crossing off', ('tm', 4, g, choice, 0), {'gamma': ['a', 'b', 'X', 'Y', '_'], 'sigma': ['a', 'b']}, \
+        ['a' * n + 'b' * m for n in (0, 1, 3, 8, 14, 20) for m in (n, n + 1, max(n - 1, 0))]
+    # binary counter (gamma 0, 1, blank): increments the number on the tape (least significant bit first) until it overflows
+    Z, O, BL3 = 0, 1, 2
+    cnt = {(0, Z): (1, O, 'L'), (0, O): (0, Z, 'R'), (0, BL3): (2, BL3, 'R'),
+           (1, Z): (1, Z, 'L'), (1, O): (1, O, 'L'), (1, BL3): (0, BL3, 'R')}
+    # note: a left move at cell 0 stays, so state s1 reads cell 0 again: it is given its own return rule below
+    cnt[(1, Z)] = (0, Z, 'L')
+    cnt[(1, O)] = (0, O, 'L')
+    choice = tuple(cnt.get((q, a)) for q in range(2) for a in range(3))
+    yield 'binary counter', ('tm', 2, 3, choice, 0), {'gamma': ['0', '1', '_'], 'sigma': ['0', '1']}, ['0' * n for n in (1, 3, 5, 6)] + ['0110', '00000001']
+    # runner: moves right over a long input and accepts at the first blank (head far beyond cell 256)
+    run = {(0, 0): (0, 0, 'R'), (0, 1): (1, 1, 'R')}
+    choice = tuple(run.get((q, a)) for q in range(1) for a in range(2))
+    yield 'runner', ('tm', 1, 2, choice, 0), {}, ['a' * n for n in (255, 256, 257, 300, 700)]
+
+
+def t_long(acc, which=None):
+    from gambatools.tm_algorithms import tm_accepts_word, tm_simulate_word
+    for mi, (name, spec, kw, wordlist) in enumerate(long_machines()):
+        if which is not None and mi != which:
+            continue
+        Q, sigma, gamma, delta, q0, qa, qr, blank = tm.parts(spec, '_', **kw)
+        T = tm.build(spec, '_', **kw)
+        rp = {'fn': 'mc.props.c11:t_long', 'mode': 'plain', 'params': {'which': mi}}
+        acc.states += 1
+        verdicts = set()
+        for w in wordlist:
+            full, confs_full = tm.run(delta, q0, qa, qr, blank, w, 20000)
+            steps = len(confs_full) - 1
+            acc.mx('max_steps_of_a_halting_run', steps if full is not None else 0)
+            for k in sorted({max(steps - 1, 0), steps, steps + 1, 20000, 127, 128, 129, 255, 256, 257}):
+                exp, confs = tm.run(delta, q0, qa, qr, blank, w, k)
+                verdicts.add(exp)
+                inst = {'tm': name, 'word': '%s (length %d)' % (w[:12], len(w)), 'max_steps': k, 'steps_of_the_run': steps}
+                ok, got = core.lib_call(acc, 'tm_accepts_word', inst, tm_accepts_word, T, w, k, repro=rp)
+                acc.transitions += 1
+                if ok:
+                    acc.evals += 1
+                    acc.validated += 1
+                    if got is not exp:
+                        acc.viol('tm_accepts_word', 'verdict differs from the Sipser step semantics', inst, repro=rp, observed=got, expected=exp)
+                ok, tr = core.lib_call(acc, 'tm_simulate_word', inst, tm_simulate_word, T, w, k, repro=rp)
+                acc.transitions += 1
+                if ok:
+                    acc.evals += 1
+                    with core.inspecting(acc, 'tm_simulate_word', inst, repro=rp):
+                        msg = judge_trace(tr, confs, exp, k, w, q0, qa, qr, blank)
+                        if msg:
+                            acc.viol('tm_simulate_word', msg, inst, repro=rp, observed=[[q, ''.join(t)[:40], h] for (q, t, h) in tr][-3:])
+        if len(verdicts) >= 2:
+            acc.nontrivial += 1
+
+
 def t_space(acc, w, g, L, shard, nshard, stride=1, offset=0, budgets=BUDGETS, blank='_'):
     if w == 0:
         for spec in tm.tm_halting_start(g):
@@ -126,6 +192,7 @@ def plan(tier, seed):
     def add(w, g, L, ns, stride=1, budgets=BUDGETS, blank='_'):
         tasks.extend(('plain', P, {'w': w, 'g': g, 'L': L, 'shard': s, 'nshard': ns, 'stride': stride, 'offset': seed, 'budgets': list(budgets), 'blank': blank}) for s in range(ns))
 
+    tasks.extend(('plain', 'mc.props.c11:t_long', {'which': i_}) for i_ in range(3))
     add(0, 2, 2, 1)
     add(0, 3, 1, 1, blank='□')
     add(1, 2, 3, 1)
@@ -144,4 +211,4 @@ def plan(tier, seed):
         bounds = 'TM(0,g), TM(1,2), TM(1,3), TM(2,2) (83 521) x words <= 3; budgets 0..8 (+ larger budgets on a stride)'
     return {'tasks': tasks, 'bounds': {'spaces': bounds}, 'exhaustive': True,
             'rule': 'every machine with w working states and g tape symbols (each delta cell undefined or (target, write, L/R)) x every input word x every step budget; verdict and configuration sequence vs a 15-line Sipser step function; non-trivial = machine on which at least two of accept / reject / undecided occur',
-            'assumptions': ['head position after an implicit reject is not specified and not compared', 'tapes compared modulo trailing blanks', 'every machine also with delta inserted symbol by symbol, with working states named a, b / q1, q10, and with blanks _, □, # alternating within one process']}
+            'assumptions': ['head position after an implicit reject is not specified and not compared', 'tapes compared modulo trailing blanks', 'every machine also with delta inserted symbol by symbol, with working states named a, b / q1, q10, and with blanks _, □, # alternating within one process', 'wave 5: three long-running machines (a^n b^n by crossing off up to n = 20, a binary counter, a runner over up to 700 cells): runs of up to several thousand steps, budgets around the run length and around 128 / 256']}
